@@ -108,6 +108,12 @@ def main(argv=None):
                     pass
             st = facts.stats()
             st.update({"features": feat or "default", "facts_sha": sha, "cached": cached, "extract_s": round(secs, 2)})
+            if facts.inlined:
+                st["new_helpers_expanded_into_callers"] = {h: sorted(set(c)) for h, c in facts.inlined.items()}
+                print("note: new private helper(s) analysed inside their callers: %s" % ", ".join(sorted(facts.inlined)))
+            if facts.renamed:
+                st["functions_analysed_under_reviewed_name"] = facts.renamed
+                print("note: renamed function(s) analysed under their reviewed names: %s" % ", ".join("%s (now %s)" % (a, b.split("::")[-1]) for a, b in sorted(facts.renamed.items())))
             analysed.append(st)
             runs = run_rules(facts, rules, feat or "default")
             all_runs.append((feat or "default", runs))
